@@ -75,6 +75,7 @@ def replay(ctx, path):
 
 FAMILIES = {
     "camel": {"module": "CamelCase", "judge": "CamelCaseTrace"},
+    "typeref": {"module": "TypeRef", "judge": "TypeRefTrace"},
 }
 
 
@@ -124,6 +125,39 @@ def check_C19(ctx):
     ], fails)
 
 
+def _depth(t):
+    return 1 + max([_depth(a) for a in t.get("args", [])] or [0])
+
+
+def check_C15(ctx):
+    t = ctx.tier
+    gens = ["TypeRef_gen_%s%s.cfg" % (t, k) for k in ("", "2", "3")]
+    res = run_family(ctx, "typeref", "TypeRef", gens, "TypeRefTrace", rand_n=3000 if ctx.quick() else 50000,
+                     a_cfgs=["TypeRef_A_%s.cfg" % t], shard=6000)
+    if res["stats"].get("insane", 0):
+        raise Infra("typeref: harness printing of %d trees disagrees with the specification's printer" % res["stats"]["insane"])
+    fails = vlib.collect_failures(res["trace"], res["bad"], "typeref", only_prefix="C15")
+    tr = res["trace"]
+    cov = {
+        "traces_validated_against_impl": len(tr),
+        "evaluations": len(tr),
+        "distinct_nontrivial": _distinct(tr, lambda r: _depth(r["case"]["tree"]) >= 3, key=lambda r: json.dumps(r["conc"]["s"])),
+        "rule": "TLC enumerates every reference tree within (depth, width, leaf set) bounds as an initial state; each is printed, "
+                "run through ParseTypeRef/String, ParseRef/Ref, PkgImportPathAndExpose and rendered with snippet.ID through a raw namer; "
+                "plus seeded random trees up to depth 6, width 5. Non-trivial = distinct reference strings whose bracket nesting depth is >= 2 "
+                "(tree depth >= 3), i.e. those that need a depth counter rather than a flag.",
+        "exhaustive": True,
+        "samples": [{"s": "".join(r["conc"]["s"]), "obs": r["obs"]} for r in tr[:: max(1, len(tr) // 3)][:3]],
+        "abstract_cases": res["n_cases"],
+    }
+    return vlib.finish(ctx, "model_checking", cov, [
+        "well-formed references only (the grammar of C15); paths containing /vendor/ are not generated (PkgImportPathAndExpose strips them by design)",
+        "which import name is chosen is not prescribed: the logged name is bound and only consistency is checked",
+        "exhaustive within (depth, width, leaf set) bounds; random beyond",
+    ], fails)
+
+
 CHECKS = {
+    "C15": check_C15,
     "C19": check_C19,
 }
